@@ -168,8 +168,9 @@ Injected(p, i) == st[p].inj[i]
 Inv_CachedOnce == Acyclic => \A n \in Names : prog.cache[n] =>
    /\ Cardinality(ObjsOf(n)) <= 1
    /\ \A p \in Procs : \A i \in 1..Len(st[p].inj) : prog.params[p][i] = n => Injected(p, i) \in ObjsOf(n)
-(* a non-cached resource is created fresh per step invocation and shared only within that resolution *)
-Inv_FreshPerInvocation == Acyclic => \A n \in Names : ~prog.cache[n] =>
+(* a non-cached resource is created fresh per step invocation and shared only within that resolution -- also when a *)
+(* resolution ends with an error (cycle): what it had created must not reach a later invocation                      *)
+Inv_FreshPerInvocation == \A n \in Names : ~prog.cache[n] =>
    /\ \A k \in ObjsOf(n) : Users(k) \subseteq {objs[k].by}
    /\ \A p \in Procs : Cardinality({k \in ObjsOf(n) : objs[k].by = p}) <= 1
 (* a genuine cycle is always reported *)
@@ -178,7 +179,7 @@ Inv_CycleReported == \A p \in Procs : Cyclic(p) => st[p].status # "done"
 Inv_NoFalseCycle == Acyclic => \A p \in Procs : st[p].status # "error"
 (* the known failure shapes (Dev = TRUE): both need another invocation to be in flight *)
 Inv_NoFalseCycle_KF == Acyclic => \A p \in Procs : st[p].status = "error" => st[p].overlap
-Inv_FreshPerInvocation_KF == Acyclic => \A n \in Names : ~prog.cache[n] =>
+Inv_FreshPerInvocation_KF == \A n \in Names : ~prog.cache[n] =>
    /\ \A k \in ObjsOf(n) : Users(k) \subseteq {objs[k].by} \cup {p \in Procs : st[p].overlap}
    /\ \A p \in Procs : Cardinality({k \in ObjsOf(n) : objs[k].by = p}) <= 1
 (* bookkeeping returns to rest *)
